@@ -25,7 +25,9 @@ KINDS = {
     'ND': ('TRACE_DATA_NEWTHREAD', 0), 'NS': ('TRACE_STRING_NEWTHREAD', 0),
     'ED': ('TRACE_DATA_EXEC', 0), 'ES': ('TRACE_STRING_EXEC', 0), 'TN': ('TRACE_STRING_THREADNAME', 0),
     'TP': ('TRACE_DATA_THREAD_TERMINATE_PID', 0), 'L': ('VFS_LOOKUP', 3), 'K': ('proc_exit', 1), 'Ke': ('proc_exit', 2),
+    'TT': ('TRACE_DATA_THREAD_TERMINATE', 0),
 }
+SHARED_TABLE_READERS = {'TraceDataThreadTerminate'}      # renders from tables other threads write: text not compared
 STRINGY = {'NS', 'ES', 'TN'}
 
 
@@ -45,7 +47,8 @@ def bounds(tier):
 
 
 def _programs(tier):
-    base = [['ND', 'NS'], ['ED', 'ES'], ['As', 'Ae'], ['ND', 'ES'], ['TN', 'NS'], ['Rs', 'Re'], ['ND', 'ND'], ['NS', 'NS']]
+    base = [['ND', 'NS'], ['ED', 'ES'], ['As', 'Ae'], ['ND', 'ES'], ['TN', 'NS'], ['Rs', 'Re'], ['ND', 'ND'], ['NS', 'NS'],
+            ['TT'], ['TT', 'TT']]
     if tier == 'thorough':
         base += [['ED', 'NS'], ['TP', 'NS'], ['L', 'Re'], ['Ss', 'Se'], ['ND', 'TN'], ['ES', 'ES'], ['ND'], ['NS'], ['ED'], ['ES']]
     return base
@@ -67,7 +70,7 @@ def structures(tier):
     progs = _programs(tier)
     for p1 in progs:
         for p2 in progs:
-            if tier == 'quick' and not ({'ND', 'NS', 'ED', 'ES'} & set(p1 + p2)) and (p1, p2) != (['As', 'Ae'], ['Rs', 'Re']):
+            if tier == 'quick' and not ({'ND', 'NS', 'ED', 'ES', 'TT'} & set(p1 + p2)) and (p1, p2) != (['As', 'Ae'], ['Rs', 'Re']):
                 continue
             for order in _interleavings([len(p1), len(p2)]):
                 if list(order) == [0] * len(p1) + [1] * len(p2):
@@ -96,7 +99,7 @@ def structures(tier):
     pres = [[]] + [[k] for k in pre_kinds if KINDS[k][1] == 1]
     if tier == 'thorough':
         pres += [[a, b] for a in pre_kinds if KINDS[a][1] == 1 for b in pre_kinds]
-    ev_kinds = ['As', 'Ae', 'An', 'Ss', 'Se', 'ND', 'NS', 'ED', 'ES', 'TN'] if tier == 'quick' else sorted(KINDS)
+    ev_kinds = ['As', 'Ae', 'An', 'Ss', 'Se', 'ND', 'NS', 'ED', 'ES', 'TN', 'TT'] if tier == 'quick' else sorted(KINDS)
     for pa in pres:
         for pb in pres:
             if pa and pb and pa != pb and (tier == 'quick' or len(pa) + len(pb) > 2):
@@ -154,6 +157,7 @@ def _run(ctx, events_in_order, nthreads):
         try:
             ret = p.feed(ev)
         except Exception as e:      # noqa
+            __import__('vxlib.symx.core', fromlist=['x']).proxy_rejected(e)
             obs.error = (k, e)
             obs.traces[k].append(('!error', type(e).__name__, ''))
             continue
@@ -195,7 +199,8 @@ def _compare_obs(ctx, L, o1, o2, nthreads):
         ctx.check(L + '/trace-count', len(t1) == len(t2), 'thread %d: %d vs %d traces' % (k, len(t1), len(t2)))
         for x, y in zip(t1, t2):
             ctx.check(L + '/trace-kind-and-window', x[0] == y[0] and x[1] == y[1], 'thread %d: %s vs %s' % (k, x[0], y[0]))
-            ctx.check(L + '/trace-text', _text_eq(ctx, x[2], y[2]), 'thread %d' % k)
+            if x[0] not in SHARED_TABLE_READERS:
+                ctx.check(L + '/trace-text', _text_eq(ctx, x[2], y[2]), 'thread %d' % k)
         w1, w2 = o1.writes[k], o2.writes[k]
         ctx.check(L + '/learned-count', len(w1) == len(w2), 'thread %d learned %d vs %d facts' % (k, len(w1), len(w2)))
         for x, y in zip(w1, w2):
@@ -277,6 +282,7 @@ def run_swap(ctx, st):
             try:
                 ret = p.feed(ev)
             except Exception as e:      # noqa
+                __import__('vxlib.symx.core', fromlist=['x']).proxy_rejected(e)
                 obs.error = (k, e)
                 obs.traces[k].append(('!error', type(e).__name__, ''))
                 continue
